@@ -3,7 +3,7 @@ import ast
 
 from ..core.model import AnchorError, ClassInfo, FuncInfo
 from ..core.cfg import walk_shallow, cfg_of
-from ..core.facts import U
+from ..core.facts import U, atoms_of
 from ..engine import fn_name, kwarg, local_defs, returns_of, stmts_in, dict_items, const_str
 from .common import eval3
 
@@ -240,6 +240,19 @@ def s1(ctx, rep, sweep=False):
     rk = set(keys_read(ctx, dec))
     rep.put(bool(wk) and wk == rk, "S1", "agreement", "encode_state keys == decode_state keys", enc, None, str(sorted(wk)),
             f"encode_state writes {sorted(wk)}, decode_state reads {sorted(rk)}")
+    # a pending evaluation keeps its resource level in the snapshot: the element written for an entry WITH a resource has the key
+    for x in walk_shallow(enc.node):
+        if isinstance(x, ast.IfExp) and any(isinstance(y, ast.Attribute) and y.attr == "resource" for y in ast.walk(x.test)):
+            t, a_t, a_f = x.test, x.body, x.orelse
+            while isinstance(t, ast.UnaryOp) and isinstance(t.op, ast.Not):
+                t, a_t, a_f = t.operand, a_f, a_t
+            at_ = atoms_of(t, True)
+            has = any(a[0] == "is" and a[1].endswith(".resource") and a[3] is False for a in at_)
+            hasnot = any(a[0] == "is" and a[1].endswith(".resource") and a[3] is True for a in at_)
+            with_res, without = (a_t, a_f) if has else (a_f, a_t) if hasnot else (None, None)
+            okr = with_res is not None and "'resource'" in U(with_res) and "'resource'" not in U(without)
+            rep.put(okr, "S1", "agreement", "encode_state: a pending evaluation with a resource level is written with its 'resource'", enc, x, "",
+                    "the resource level of pending evaluations is dropped from the snapshot: the restored multi-fidelity searcher fantasizes at the wrong levels")
     # each entry is a lossless image of the state field of the same name: the field itself, or an element-wise map over it
     # (no filter, no regrouping under a coarser key)
     from ..engine import deref
